@@ -116,24 +116,6 @@ pub fn c16_invalid_in_invalid_out() {
     reached();
 }
 
-//@ id=C16 tier=quick to=1200 cfg=std exh=1 desc="ground on the real code: sin(+-0) == 0, cos(0) == 1, tan(0) == 0, sin_cos(0) == (0, 1) exactly"
-#[cfg_attr(kani, kani::proof)]
-#[cfg_attr(kani, kani::unwind(16))]
-pub fn c16_exact_points() {
-    let z = gtf(0.0, 0.0);
-    let s = z.sin();
-    assert!(s.hi() == 0.0 && s.lo() == 0.0);
-    let c = z.cos();
-    assert!(c.hi() == 1.0 && c.lo() == 0.0);
-    let t = z.tan();
-    assert!(t.hi() == 0.0 && t.lo() == 0.0);
-    let (s2, c2) = z.sin_cos();
-    assert!(s2.hi() == 0.0 && s2.lo() == 0.0 && c2.hi() == 1.0 && c2.lo() == 0.0);
-    let sn = gtf(-0.0, 0.0).sin();
-    assert!(sn.hi() == 0.0 && sn.lo() == 0.0);
-    reached();
-}
-
 /// quadrant() on concrete arguments: remainder within [-pi/4 - slack, pi/4 + slack] and quadrant in 0..3
 /// (the symbolic claim needs two real double-double divisions and is out of reach; ground sample)
 pub fn quadrant_ground(v: f64) {
